@@ -17,7 +17,8 @@ CLAIMS = {
         "target, align, phase_shift, EOM and DMM ops, failing calls) on 8-10 channel configurations (incl. DMM declared first, two "
         "locals, and a fall-tail world: several idle slots of lengths around the rise time between a pulse and every consumer of "
         "its pending fall time, depth 4; two deep-root worlds starting from 9- and 16-call programs inside / after an EOM block; an EOM "
-        "slower than its channel) are executed on the real Sequence; tiling, clock alignment, minimum durations, prefix stability, reported durations and agreement of the three "
+        "slower than its channel; an SLM mask in Ising mode; a maximum duration below the waits the channel needs) are executed on "
+        "the real Sequence; tiling, clock alignment, minimum durations, prefix stability, reported durations and agreement of the three "
         "timeline views (schedule, str, sampler) are checked on every transition.",
         "Bounded depth and alphabet; Pulse.fall_time trusted for the pending-fall-time clause (decided separately by C14).",
         "DESIGN.md §3 C02",
@@ -26,9 +27,9 @@ CLAIMS = {
         "model_checking",
         "explicit-state BFS over call histories; lock-step co-simulation with a reference scheduler (RefSched) re-seeded from "
         "the implementation's pre-state on every transition, plus model-free lower-bound monitors",
-        "All histories up to depth 2-4 over 15-33 op alphabets on 13 two-channel worlds (global+local on different / same basis, "
+        "All histories up to depth 2-4 over 15-33 op alphabets on 15 two-channel worlds (global+local on different / same basis, "
         "two globals on one basis, global+DMM, two locals, two fall-tail worlds with idle slots around the rise time, DMM first with "
-        "integer ids, two deep-root worlds, an EOM slower than its channel; bandwidths "
+        "integer ids, two deep-root worlds, an EOM slower than its channel, an Ising SLM mask, max_duration below the waits; bandwidths "
         "None/8/30 MHz, mixed per-channel bandwidths): every accepted add / "
         "align / delay is compared with RefSched's earliest admissible start; min-delay / wait-for-all lower bounds, the "
         "phase-shift barrier, exactness of no-delay, estimate_added_delay == inserted delay (and purity) and align's common end "
@@ -48,7 +49,9 @@ CLAIMS = {
         "change of setpoint): per transition every (basis, atom) "
         "reference must change by exactly the op's increment (mod 2pi) and no other reference may move; every new pulse carries "
         "programmed phase + reference and starts after the latest shift of its targets. Ramsey pairs (two pi/2 pulses around a "
-        "shift phi) are emulated for 29 phi values x 5 channel kinds x {phase_shift, post_phase_shift}: P = cos^2(phi/2) +- 1e-4.",
+        "shift phi) are emulated for 29 phi values x 5 channel kinds x {phase_shift, post_phase_shift}, and for 10 phi values x 3 "
+        "channel kinds with something in between (plain delay, zero-amplitude hold of 16 / 100 / 400 ns) x both protocols of the "
+        "second pulse x phase-jump time {none, 200 ns} (1250 emulations): P = cos^2(phi/2) +- 1e-4.",
         "EOM drift corrections are compared with the documented rule (RefSched); their physical correctness is C15's clause. "
         "Bounded depth/alphabet; phi grid.",
         "DESIGN.md §3 C07",
@@ -61,7 +64,8 @@ CLAIMS = {
         "derived/0/42} x {bandwidth none/8/30 MHz} x {clock 1/4} x {min duration 1/16} x {retarget interval 0/220} x {fixed "
         "retarget 0/30} (144 configurations; quick covers corners plus a seed-rotated twelfth chosen as a covering design - every value of "
         "every parameter and all four (retarget interval, fixed time) combinations in each slice -, thorough all; corners "
-        "include fixed retarget time > interval, a fall-tail world, integer ids and an EOM slower than its channel): phase-jump gap >= "
+        "include fixed retarget time > interval, a fall-tail world, integer ids, an EOM slower than its channel and two channels "
+        "whose max_duration is below the retarget interval / fall time / phase-jump time): phase-jump gap >= "
         "phase_jump_time + fall (>= 2 x EOM rise in EOM mode) unless no-delay, retarget interval / fixed time / ramp-down / "
         "same-target no-op on every state, exact gaps pinned by RefSched.",
         "Fall times are trusted inputs (C14); in EOM mode only the weakest reading is enforced model-free. Bounded depth/alphabet.",
@@ -82,7 +86,8 @@ CLAIMS = {
         "identical device) copy and, up to depth 2-3, its abstract-repr round trip; every copy then receives calls of every kind "
         "(variable declaration, pulses, delays, phase shifts, align, channel declaration, measure) and the original must keep its "
         "full snapshot; finally the caller edits every list object it passed as an argument (targets, SLM qubits) and the record "
-        "of calls and its replay must not follow.",
+        "of calls and its replay must not follow. Attributes of the sequence that the snapshot does not know by name are carried "
+        "generically, so a cache written by a read-only call is a state change.",
         "Known findings (non-atomic multi-step operations under max_sequence_duration, declare_channel with a bad initial "
         "target) are listed in known_findings.json. Bounded depth; fault menu as listed in mc/props/c09.py.",
         "DESIGN.md §3 C09",
@@ -127,19 +132,21 @@ CLAIMS = {
         "All states reachable within depth 3-4 over 8-15 op rendering alphabets (pulses of distinct shape / phase / detuning on "
         "every channel, retargets, multi-target local channel, EOM blocks left open, DMM with a weight map, XY with an SLM mask "
         "and two microwave channels, two globals on one basis, two locals, DMM declared first, automatic waits inside EOM blocks) "
-        "on 9 worlds (incl. integer / string ids out of register order and a user-built zero-amplitude hold pulse with its own phase): per channel array lengths, amplitude, "
+        "on 12 worlds (incl. integer / string ids out of register order, a user-built zero-amplitude hold pulse with its own phase, an "
+        "Ising SLM mask, two detuning maps on one DMM id, a detuning map built from its own coordinate array): per channel array lengths, amplitude, "
         "detuning and phase over each pulse; per atom and basis the complex drive and weighted detuning from both "
         "to_nested_dict layouts; extension by 1 and 37 ns pads with zeros / last phase / off-detuning. Idle time inside an EOM block is "
         "rendered from the block (mode), not from the kind of slot the implementation recorded.",
         "Known findings: channels merged into one nested-dict entry are combined by adding amplitudes and phases (two globals "
-        "on a basis; global+local with all_local=True). Phase between pulses is not compared.",
+        "on a basis; global+local with all_local=True); a merge model (sum of amplitudes and carried phases per entry) scopes these "
+        "findings: a deviation that is not that sum has its own fingerprint. Phase between pulses is not compared.",
         "DESIGN.md §3 C06",
     ),
     "C05": (
         "exploration",
         "explicit-state BFS over building histories; for every reached program the emulator's Hamiltonian is compared at every "
         "integer nanosecond with an independent dense Kronecker construction (RefHam) fed by the timeline snapshot",
-        "All programs reachable within depth 2-3 over 3-15 op alphabets on 14 worlds (two bases; global+local on one basis with a "
+        "All programs reachable within depth 2-3 over 3-15 op alphabets on 15 worlds (two bases; global+local on one basis with a "
         "permuted atom order; DMM weight map on a 3D register; XY with an SLM mask and two microwave channels; XY with tilted / "
         "in-plane magnetic field on 2D and 3D registers; two globals on one basis; DMM declared first; integer and string qubit ids whose sorted / index order differs from the "
         "register order, in Ising, XY and DMM worlds; Ising mode with an SLM mask leaving one (of two / three) atoms unmasked; Rydberg "
@@ -183,7 +190,8 @@ CLAIMS = {
         "d = 17..259 (thorough ..699); pulses with phases {-7,-pi,-1e-12,0,1,2pi,7,100}; invalid pulses refused; "
         "ArbitraryPhase reproduces 6 phase-waveform kinds x 6 durations at every sample through phase_modulation. Object "
         "histories: every sequence of <= 3 (thorough 4) steps over 10 uses / caller-side edits (constructor buffers, arrays returned "
-        "by samples / modulated_samples / pulse waveforms) on 6 waveform objects vs a pristine object (6.7k histories).",
+        "by samples / modulated_samples / pulse waveforms) on 6 waveform objects vs a pristine object, compared on the object itself "
+        "and on what is derived from it afterwards (change_duration, scaling, negation) (6.7k histories).",
         "Grid values only; interpolated waveforms whose points coincide after rounding are a don't-care class.",
         "DESIGN.md §3 C16",
     ),
@@ -197,7 +205,8 @@ CLAIMS = {
         "identical across permutations; ==, hash and static_hash order independent; every ordered selection of <= 3 trap ids "
         "with unsorted qubit ids places each qubit exactly on its trap and is inverted by get_traps_from_coordinates (rounded "
         "and raw coordinates); mappable registers built with every insertion order keep the declared order; detuning maps "
-        "given in permuted order give each qubit its trap's weight, 0 off-trap, sorted weights aligned. Object histories: every "
+        "given in permuted order give each qubit its trap's weight, 0 off-trap, sorted weights aligned; positions from another array displaced by +-4e-7 (still on the trap, "
+        "reaches -0.0) and +-3e-6 (off the trap). Object histories: every "
         "sequence of <= 3 (thorough 4) steps over 12 uses / caller-side edits (constructor argument; containers and arrays "
         "returned by traps_dict, coords, sorted_coords, register.qubits, weights) on one 2D / 3D layout built from an array or a "
         "list, compared after every step with a pristine layout of the same coordinates (7.5k histories).",
@@ -212,7 +221,7 @@ CLAIMS = {
         "position, atoms at radius R-1e-3, R, R+1e-3, counts max / max+1, 3D registers, every atom order) through "
         "validate_register and Sequence(); expected accept / refuse and the exact offending pairs / atoms from Fractions; "
         "layout-based registers for fillings {0.5,1,0.4,0.45,0.57,0.35,0.29,0.58,0.07,0.7} x trap bounds x trap and atom counts "
-        "around the limit (incl. products that are integers only in exact arithmetic); the atom-number limit on registers that come from "
+        "around the limit (incl. exactly the maximum number of traps and products that are integers only in exact arithmetic); the atom-number limit on registers that come from "
         "a valid layout; automatic layouts on a physical device "
         "and max_connectivity registers must be accepted by their device; device construction (+ specs / docs rendering) for "
         "each optional parameter None / valid / boundary / invalid.",
@@ -227,7 +236,8 @@ CLAIMS = {
         "output length = input + 2 rise times, finite, integral preserved (1e-9), no negative output from non-negative input, "
         "no overshoot, pairwise linearity, tone at the bandwidth halved (through apply_modulation and, as steady-state gain, "
         "through Channel.modulate itself on the standard and the EOM path incl. bandwidths whose rise time 480/bw is not a whole "
-        "number of ns). Fall-time clause for bandwidth {2,4,8,30} (+4 more in "
+        "number of ns); output lengths are checked before any arithmetic and a library call that raises on a valid waveform is a "
+        "violation. Fall-time clause for bandwidth {2,4,8,30} (+4 more in "
         "thorough) x duration {16,52,100,401} x amplitude {0.1,1,20} x 11 amplitude and 6 detuning shapes (incl. composites "
         "ending in a short zero / low hold and sign-changing ramps) and EOM bandwidths 20/40: the true output beyond duration + "
         "Pulse.fall_time stays below max(0.01, 0.6 % of peak). Sequences: modulated sampling succeeds whenever plain sampling "
@@ -262,7 +272,7 @@ CLAIMS = {
         "exploration",
         "exhaustive program x deviation enumeration (ProgX) through both codecs with a differential oracle on canonical "
         "snapshots and an independently compiled schema validator",
-        "1.2k (quick) / ~2k (thorough) programs: 5 program families covering every building operation x argument-style "
+        "1.2k (quick) / ~2k (thorough) programs (incl. a zero-length delay that still waits for the fall time): 5 program families covering every building operation x argument-style "
         "deviations (positional / keyword / omitted / explicit default; each alone and pairs) x registers {2D, 3D} x {plain, from a "
         "layout, mappable} x devices {inline virtual with EOM+DMM, MockDevice by name, custom physical with / without EOM} x parametrized variants "
         "(each numeric position alone and all together as variable expressions) x qubit ids {strings, integers 0..2, integers "
@@ -278,9 +288,9 @@ CLAIMS = {
         "exhaustive program x device-pair enumeration (ProgX) with a differential snapshot oracle (strict) and the C01/C02 "
         "predicates on the new device (non-strict)",
         "161 programs (every history of <= 2 ops over a 12-op alphabet incl. EOM with drift correction, DMM, retarget, align, "
-        "phase changes; plus 4 long ones) and 13 auxiliary programs (the same DMM id configured twice before / after parametrization; SLM mask with default / positional / keyword DMM id before "
-        "and after the first channel or pulse in Ising, XY and undetermined mode, magnetic field, measurement, variables) x 77 "
-        "ordered device pairs (base <-> 26 single-parameter variants incl. a renamed identical device, to which every switch must "
+        "phase changes; plus 4 long ones) and 15 auxiliary programs (EOM set points next to the detuning limit; the same DMM id configured twice before / after parametrization; SLM mask with default / positional / keyword DMM id before "
+        "and after the first channel or pulse in Ising, XY and undetermined mode, magnetic field, measurement, variables) x 81 "
+        "ordered device pairs (base <-> 28 single-parameter variants incl. a renamed identical device, to which every switch must "
         "succeed and change nothing; of clock, min "
         "duration, bandwidth, phase-jump time, retarget interval, fixed retarget time, EOM bandwidth / buffer / beams / absence, "
         "amplitude / detuning / duration limits, reusability, Rydberg level, max sequence duration, DMM bottoms; base -> 25 "
@@ -290,7 +300,8 @@ CLAIMS = {
         "moved and a re-ordered register keeps the timeline; to a MappableRegister with the same ids it is refused or keeps every "
         "stored instruction and builds to the original timeline; parametrized programs are compared after building both sides.",
         "Consecutive plain delays are merged and derived DMM channel names normalised before comparing strict switches. Known "
-        "findings: strict ignores min_duration and the SLM-mask DMM's bottom detuning.",
+        "findings: strict ignores min_duration, the SLM-mask DMM's bottom detuning and the off-detuning of an open, still empty EOM block. "
+        "Idle periods at one off-detuning are merged, only the current phase reference is compared.",
         "DESIGN.md §3 C18",
     ),
     "C17": (
@@ -301,7 +312,8 @@ CLAIMS = {
         "704 (quick) cases: 190+ noise models (every subset of the 7 noise types through each activating parameter variant, "
         "leakage) - active types exactly those set, abstract round trip equal, NoiseModel -> SimConfig -> NoiseModel preserves "
         "types and every relevant parameter; ~400 virtual devices (12 optional fields: all singles, pairs, all) x 5 channel sets "
-        "(EOM with every optional field non-default, DMM, default noise model, custom ids) + 6 physical variants; registers "
+        "(EOM with every optional field non-default, EOM controlled beams in every selection and order, DMM, default noise model, custom "
+        "ids, channels / DMMs listed in reverse order) + 6 physical variants; registers "
         "2D/3D x 6 atom orders x 3 id sets x with/without layout, layouts, detuning maps with traps in all 24 orders through a "
         "sequence; 135 emulation configs (observable sets x evaluation times x initial states x noise models) incl. operators "
         "with complex coefficients; aliasing for StateRepr / NoiseModel / VirtualDevice / Register in all 6 orders.",
@@ -322,7 +334,8 @@ CLAIMS = {
         "object); state-preparation errors: every pattern of badly prepared atoms over 2-3 runs; the legacy emulator as a "
         "stateful object: every history of <= 3 (thorough 4) configuration calls (set_initial_state x 3, set_config x 3, "
         "add_config x 3, reset_config, set_evaluation_times x 3, run, observers) on one emulator vs a fresh emulator configured with the net "
-        "settings of a reference model (3.8k histories).",
+        "settings of a reference model (3.8k histories); reduced states get_state(reduce_to_basis=...) of three-level runs vs the "
+        "projection of the full state.",
         "Solver tolerances as listed in the evidence; Rabi value required within the range spanned by effective durations "
         "[T-1, T]; large-shot statistics are not decided.",
         "DESIGN.md §3 C11",
@@ -331,7 +344,7 @@ CLAIMS = {
         "exploration",
         "exhaustive grids of states x Hamiltonians / operator representations x observables against numpy trace "
         "definitions; end-to-end V2 runs over evaluation-time configurations; BitStrings under enumerated RNG tapes",
-        "22.5k cases (quick): a 9-member state family (basis states, uniform, signed/complex, entangled, 1/4-3/4 mixture, "
+        "22.9k cases (quick): a 9-member state family (basis states, uniform, signed/complex, entangled, 1/4-3/4 mixture, "
         "maximally mixed, diagonal) as ket and density matrix x 6 eigenstate sets (2, 3, 4 levels) x 1-3 qudits x 3 "
         "Hamiltonians: Occupation, CorrelationMatrix, Energy, EnergySecondMoment, EnergyVariance, Fidelity / overlap against every "
         "member given as ket and as density matrix (incl. a mixture with complex off-diagonal elements), Expectation of a non-Hermitian operator, operator +, scalar*, @ and apply_to == matrix algebra; 6 "
@@ -340,7 +353,8 @@ CLAIMS = {
         "noise: ascending unique times, retrieval by observable and tag, stored values == definitions on the stored state and "
         "noiseless Hamiltonian; BitStrings under every tape of a 6-value menu per draw x detection-error settings; every sequence "
         "duration 16..329 ns (thorough ..1499) x 6 evaluation-time lists not starting at 0: exactly one stored value per requested "
-        "time.",
+        "time; the Results store itself: every subset (<= 4) of a 9-point time grid with neighbours closer than 1e-5 relative, every "
+        "value retrievable by exactly its own time, by observable and by tag.",
         "Known finding: observables with own evaluation times are also stored at the default times.",
         "DESIGN.md §3 C20",
     ),
